@@ -21,6 +21,7 @@ import Compress.Proofs.XFlateReader
 import Compress.Proofs.BzImplCut
 import Compress.Proofs.FlateApi
 import Compress.Proofs.BzReaderApi
+import Compress.Proofs.FlateApiRefine
 
 namespace Compress.Props.C09
 open Compress Compress.XFlate
@@ -294,5 +295,69 @@ theorem C09_bzip2_io_error_identity (r : Reader) (n : Nat) :
     · exact (key x).2 t' h1.symm
 
 end api
+
+section apiRefine
+open Compress.Flate.Api Compress.Proofs.FlateRefine in
+/-- **flate.Reader, I/O errors verbatim.** The source delivers the first `k` bytes of `data` and then
+    fails with the error `t`.  From ANY earlier state `r0`, after Reset onto that source every Read
+    schedule delivers exactly what RFC 1951 decodes from those `k` bytes and ends with: `io.EOF` if the
+    stream ended before the fault position, a Corrupted error if it is invalid before it, and in
+    every other case exactly the injected error `t` - never `io.ErrUnexpectedEOF`, never Corrupted in
+    its place.  The error is latched (`Close` returns it, `C09_flate_close_result`). -/
+theorem C09_flate_io_error_verbatim (r0 : Reader) (data : List UInt8) (k t : Nat) (sched : List Nat)
+    (hs : ∀ n, sched.getLast? = some n → 0 < n) :
+    let src : Src := { data := data, fault := some (k, t) }
+    let spec := Flate.decodeBits (Bits.ofBytes (data.take k))
+    ∃ r', Reader.drive (runFuel src.bits sched) (r0.reset src) sched #[] =
+        (spec.out, some (match spec.verdict with
+                         | .ok _ => AErr.eof | .corrupt => AErr.corrupted | .unexpectedEOF => AErr.other t), r') ∧
+      r'.err = some (match spec.verdict with
+                     | .ok _ => AErr.eof | .corrupt => AErr.corrupted | .unexpectedEOF => AErr.other t) := by
+  intro src spec
+  obtain ⟨r', h1, h2, _⟩ := Compress.Proofs.FlateApi.reset_drive_spec r0 src sched hs
+  have e : liftErr src.tag (errOf (Flate.decodeBits src.bits).verdict) =
+      (match spec.verdict with | .ok _ => AErr.eof | .corrupt => AErr.corrupted | .unexpectedEOF => AErr.other t) := by
+    show liftErr (some t) (errOf spec.verdict) = _
+    cases spec.verdict <;> rfl
+  rw [e] at h1 h2
+  exact ⟨r', h1, h2⟩
+
+open Compress.Flate.Api Compress.Proofs.FlateRefine in
+/-- ... and if `data` is a valid stream (accepted with `n` bits consumed) and the fault lies inside
+    it, the run ends with exactly the injected error and the bytes delivered before it are a prefix
+    of the fault-free output. -/
+theorem C09_flate_io_error_prefix (r0 : Reader) (data : List UInt8) (out : Array UInt8) (n k t : Nat)
+    (hv : Flate.decodeBits (Bits.ofBytes data) = { out := out, verdict := .ok n }) (hk : 8 * k < n)
+    (sched : List Nat) (hs : ∀ n, sched.getLast? = some n → 0 < n) :
+    let src : Src := { data := data, fault := some (k, t) }
+    ∃ r' got, Reader.drive (runFuel src.bits sched) (r0.reset src) sched #[] = (got, some (.other t), r') ∧
+      got.toList <+: out.toList ∧ r'.err = some (.other t) := by
+  intro src
+  obtain ⟨r', h1, h2⟩ := C09_flate_io_error_verbatim r0 data k t sched hs
+  have hc := Compress.Proofs.FlatePrefix.decodeBits_cut (Bits.ofBytes data) out n hv (8 * k) hk (by omega)
+  rw [← Compress.Proofs.FlatePrefix.ofBytes_take] at hc
+  simp only [hc.1] at h1 h2
+  exact ⟨r', _, h1, hc.2, h2⟩
+
+end apiRefine
+
+/-! non-vacuity (kernel-evaluated): the hypotheses of the API theorems are met by reachable states -
+    a Read that returns `io.EOF`; a Read over a failing source that returns the injected error; a
+    Close that returns nil with an error latched (`C18_flate_reader_closed`); a valid stream with a
+    fault position inside it (`C09_flate_io_error_prefix`). -/
+set_option maxRecDepth 100000 in
+open Compress.Flate.Api in
+example : ((newReader { data := [0x01, 0x00, 0x00, 0xff, 0xff] }).read 10).2.2 = some .eof := by decide
+set_option maxRecDepth 100000 in
+open Compress.Flate.Api in
+example : ((newReader { data := [0x01, 0x00, 0x00, 0xff, 0xff], fault := some (2, 9) }).read 10).2.2 = some (.other 9) := by
+  decide
+set_option maxRecDepth 100000 in
+open Compress.Flate.Api in
+example : let r := ((newReader { data := [0x01, 0x00, 0x00, 0xff, 0xff] }).read 10).1
+    (r.close).2 = none ∧ r.err ≠ none := by decide
+set_option maxRecDepth 100000 in
+example : (Flate.decodeBits (Bits.ofBytes [0x01, 0x00, 0x00, 0xff, 0xff])).out = #[] ∧
+    (Flate.decodeBits (Bits.ofBytes [0x01, 0x00, 0x00, 0xff, 0xff])).verdict = .ok 40 ∧ 8 * 2 < 40 := by decide
 
 end Compress.Props.C09
